@@ -28,12 +28,13 @@ HERE = os.path.dirname(os.path.dirname(os.path.abspath(__file__)))
 ALL = ['C%02d' % i for i in range(1, 21)]
 
 
-from .runner import Result, StopChunk, scratch, _scratch_root  # noqa: E402,F401
+from .runner import Result, StopChunk, scratch, _scratch_root, install_call_watchdog  # noqa: E402,F401
 
 
 def _worker(args):
     pid, chunk_index, chunk = args
     try:
+        install_call_watchdog()
         mod = importlib.import_module('vt.props.' + pid.lower())
         os.chdir(scratch())
         try:
